@@ -42,13 +42,16 @@ def make_replay(pid, crate, harness, h):
     with open(gen_log, "w") as f:
         f.write(" ".join(cmd) + "\n" + p.stdout)
     tests = parse_printed_tests(p.stdout)
-    failing = [t for t in tests if t["kind"] != "cover"]
+    # Kani names a test after a hash of its values and prints each value vector once, so the
+    # counterexample of a failing assertion may be printed under a `cover` heading: run them all
+    # natively (a cover test that passes natively is harmless), failing-check ones first
+    failing = [t for t in tests if t["kind"] != "cover"] + [t for t in tests if t["kind"] == "cover"]
     if not failing:
         out["note"] = "Kani produced no concrete playback test for a failing check (see %s)" % gen_log
         return out
     rec = {"property": pid, "harness": harness, "crate": crate,
            "failed_checks": h.get("failed_checks"),
-           "tests": failing[:6], "created": time.strftime("%Y-%m-%dT%H:%M:%S")}
+           "tests": failing[:12], "created": time.strftime("%Y-%m-%dT%H:%M:%S")}
     native = run_native(rec)
     out.update(native)
     rec["native"] = native
